@@ -1,7 +1,7 @@
 """Module implementing a base for standard ONNX operators, which use the functionality of ONNX node-level inference."""
 
 import logging
-from typing import TYPE_CHECKING, Callable, Dict, Tuple
+from typing import TYPE_CHECKING, Callable, Dict, Set, Tuple
 
 import numpy as np
 import onnx
@@ -160,8 +160,16 @@ class StandardNode(Node):
             if info.type != onnx.TypeProto()
         }
         # Strips some unuseful type data (unknown dimensions become global-scoped dimension parameters).
+        # A dimension parameter spelled in an input type is the caller's own, whatever it looks like.
+        given = {
+            name
+            for var in self.inputs.get_vars().values()
+            for name in _dim_symbols(var.unwrap_type())
+        }
         return {
-            key: _strip_dim_symbol(type_, lambda x: x.startswith("unk__"))
+            key: _strip_dim_symbol(
+                type_, lambda x: x.startswith("unk__") and x not in given
+            )
             for key, type_ in results.items()
         }
 
@@ -239,6 +247,15 @@ def _strip_dim_symbol_shape(
         return shape
     xs = [None if isinstance(x, str) and pred(x) else x for x in shape]
     return tuple(xs)
+
+
+def _dim_symbols(typ: Type) -> Set[str]:
+    """Names of the dimension parameters occurring in this ``Type``."""
+    if isinstance(typ, Tensor):
+        return {x for x in typ.shape or () if isinstance(x, str)}
+    elif isinstance(typ, (Sequence, Optional)):
+        return _dim_symbols(typ.elem_type)
+    return set()
 
 
 def _strip_dim_symbol(typ: Type, pred: Callable[[str], bool]) -> Type:
